@@ -8,6 +8,7 @@ import vlib
 from vlib import hx
 
 DESTS = [e2e.IMDS, e2e.OTHER]
+DEAD = (e2e.OTHER[0], 81)      # an address of this namespace with no listener: the upstream connect is refused
 
 
 def req_raw(token):
@@ -60,16 +61,16 @@ def run(chk):
             nops = rng.rand_range(4, 14)
             cid = 0
             for _ in range(nops):
-                kind = rng.pick(["attributed", "attributed", "direct", "reuse", "reuse_fresh", "keepalive", "stale_record"])
+                kind = rng.pick(["attributed", "attributed", "direct", "reuse", "reuse_fresh", "keepalive", "stale_record", "dead_host"])
                 p = rng.pick(ports)
                 if p in live:
                     live.pop(p).close(rst=True)
                     model_ops.append(f"attr close {p}")
                     time.sleep(0.01)
                 elev = rng.below(2)
-                dest = rng.pick(DESTS)
+                dest = rng.pick(DESTS) if kind != "dead_host" else DEAD
                 cid += 1
-                if kind in ("attributed", "reuse_fresh", "keepalive", "stale_record"):
+                if kind in ("attributed", "reuse_fresh", "keepalive", "stale_record", "dead_host"):
                     stack.ctl("audit %d %d %d %d %s %d" % (p, 0 if elev else 1000, pid, elev, dest[0], dest[1]))
                     model_ops.append(f"attr record {p} {elev} {hx(dest[0])} {dest[1]}")
                 try:
@@ -96,9 +97,33 @@ def run(chk):
                         model_ops.append(f"attr record {p} {1 - elev} {hx(DESTS[0][0] if dest == DESTS[1] else DESTS[1][0])} {DESTS[0][1] if dest == DESTS[1] else DESTS[1][1]}")
                     obs, resp, recs = observe_ctx(stack, conn, f"h{h}_{tok}")
                     model_ops.append(f"attr ctx {p}")
+                    if kind == "dead_host":
+                        # the host cannot be reached: the request fails (5xx), but the record was still this connection's and is consumed
+                        if recs or resp is None or resp["status"] < 500:
+                            chk.disagreement("attribution", {"history": hist_desc, "at": f"dead_host@{p}"}, "5xx, nothing upstream", obs)
+                        continue
                     expect_idx.append((len(model_ops) - 1, obs, f"{kind}@{p} req{j}"))
                 hist_desc.append(f"{kind}@{p} elev={elev} dest={dest[0]}:{dest[1]} nreq={nreq}")
                 chk.count("op_" + kind)
+                if kind == "dead_host":
+                    # … so a direct connection reusing the port right away has no record
+                    got_ports = stack.ctl("ports")
+                    model_ops.append("attr ports")
+                    expect_idx.append((len(model_ops) - 1, got_ports, f"ports after {kind}@{p}"))
+                    live.pop(p).close(rst=True)
+                    model_ops.append(f"attr close {p}")
+                    time.sleep(0.01)
+                    try:
+                        conn = e2e.ClientConn(p, 6.0)
+                    except OSError:
+                        continue
+                    live[p] = conn
+                    model_ops.append(f"attr accept {p} {p}")
+                    tok += 1
+                    obs, resp, recs = observe_ctx(stack, conn, f"h{h}_{tok}")
+                    model_ops.append(f"attr ctx {p}")
+                    expect_idx.append((len(model_ops) - 1, obs, f"direct reuse after dead_host@{p}"))
+                    hist_desc.append(f"direct-after-dead@{p}")
                 # the stand-in map after the accept
                 got_ports = stack.ctl("ports")
                 model_ops.append("attr ports")
@@ -112,7 +137,8 @@ def run(chk):
             if bad:
                 # oracle: is it a property violation (wrong identity / not refused) or only a model mismatch?
                 for d, want, got in bad[:3]:
-                    if want == "U" and got.startswith("A"):
+                    if want == "U" and (got.startswith("A") or got.startswith("other:")):
+                        # anything but 421 means the connection was given an identity and a destination (a 502 = its host is down)
                         chk.violation("a connection without a fresh kernel record was served with an identity", {"history": hist_desc, "at": d, "trace": trace},
                                       expected=want, observed=got)
                     elif want.startswith("A") and got.startswith("A") and want != got:
